@@ -2,7 +2,7 @@
 between two text chunks (C01, C02, C20, C08: a marker that is lost, duplicated, reordered or resolved against the wrong
 neighbours changes the white space, the braces / semicolons or the indentation depth of the output).
 
-For buffers of n = 0..4 markers with pairwise different rules, and for EVERY handler table -- `dispatcher.layout(<tuple>)` is a free
+For buffers of n = 0..5 markers with pairwise different rules, and for EVERY handler table -- `dispatcher.layout(<tuple>)` is a free
 choice per tuple of rules (consistent within a run): present or NotImplemented -- the contract says:
     cover     the handler calls, in order, belong to groups of markers that are a contiguous, in-order, repetition-free cover
               of the buffer: flattening the rule structure of the called groups gives exactly rule_0 .. rule_{n-1}
@@ -47,16 +47,17 @@ def build(module, sizes=(0, 1, 2, 3, 4)):
                     rec['before'] = Str.fresh('text_before') if has_before else None
                     rec['after'] = Str.fresh('text_after') if has_after else None
 
-                def make_handler(e_unused, tag):
-                    def handler(e, a, k, tag=tag):
+                def make_handler(e_unused, tag, rich=(n <= 3)):
+                    def handler(e, a, k, tag=tag, rich=rich):
                         prev_expected = rec['yielded'][-1] if rec['yielded'] else None
                         rec['calls'].append(dict(tag=tag, args=list(a), kwargs=dict(k), prev_expected=prev_expected))
                         # free choice: nothing (None), an empty generator, one fragment, two fragments
+                        # (buffers of four markers: nothing or one fragment only, to stay within the path budget)
                         if e.decide_free('handler_returns_none'):
                             return None
-                        if e.decide_free('handler_yields_nothing'):
+                        if rich and e.decide_free('handler_yields_nothing'):
                             return PGen([])
-                        m = 2 if e.decide_free('handler_yields_two') else 1
+                        m = 2 if rich and e.decide_free('handler_yields_two') else 1
                         out = []
                         for _ in range(m):
                             f = PObj(object, name='fragment_%d' % len(rec['yielded']))
